@@ -336,6 +336,9 @@ def main():
     work = os.path.join(BUILD, 'run', '%s-%s-%d' % (prop, tier, os.getpid()))
     os.makedirs(work, exist_ok=True)
     replay_dir = os.path.join(ROOT, 'evidence', 'replays'); os.makedirs(replay_dir, exist_ok=True)
+    if not args.replay:
+        for fn in os.listdir(replay_dir):      # replays of earlier runs of this check are stale
+            if fn.startswith('%s-%s-' % (prop, tier)): os.remove(os.path.join(replay_dir, fn))
 
     known = json.load(open(os.path.join(ROOT, 'known_findings.json'))) if os.path.exists(os.path.join(ROOT, 'known_findings.json')) else {'known': [], 'fixed': []}
 
